@@ -273,6 +273,7 @@ LEVEL_TEXT = (
     "(<= 3 on a sub-lattice in quick, everywhere in thorough) over {update, Runner, Runner+get_result, run_yadism, update(update)} is executed on the same dict objects; after every transition the dicts "
     "are compared with a deep snapshot that records values, types, key order, element order and object identity of every nested container, outputs must echo the cards / grid / pids / projectile and "
     "follow the requested kinematic order, update must be idempotent, and repeated results must be bit-identical."
+    " Nine unusual-option cards (TMC, PTO 1 with xiR/xiF != 1, PTODIS != PTO, EW parameters, thresholds, FONLLParts, positivity charge, scale variations off, numpy-scalar kinematics) are run through every sequence of length <= 2."
 )
 LEVEL_NOTE = "Trusted: Python id() for container identity (objects are kept alive during the history), numpy tobytes. Cards outside the two flavours and sequences longer than 3 are not covered."
 TECHNIQUE = "explicit-state search over bounded operation histories on shared input objects with a deep-snapshot invariant after every transition"
